@@ -5,6 +5,7 @@ CONSTANTS
  MaxTicket = 6
  MaxStale = 0
  MaxExh = 1
+ MaxReins = 0
  AllowRemove = FALSE
  Dev = {"no_yield"}
 INVARIANTS YieldBound
